@@ -1260,6 +1260,28 @@ impl SparqlDatabase {
         }
     }
 
+    /// Cuts an N3 line at the first `#` that is outside `<...>` and `"..."`.
+    fn strip_n3_comment(line: &str) -> &str {
+        let mut in_iri = false;
+        let mut in_literal = false;
+        let mut escaped = false;
+        for (offset, ch) in line.char_indices() {
+            if escaped {
+                escaped = false;
+                continue;
+            }
+            match ch {
+                '\\' if in_literal => escaped = true,
+                '"' if !in_iri => in_literal = !in_literal,
+                '<' if !in_literal => in_iri = true,
+                '>' if !in_literal => in_iri = false,
+                '#' if !in_iri && !in_literal => return line[..offset].trim(),
+                _ => {}
+            }
+        }
+        line.trim()
+    }
+
     // New parse_n3 function
     pub fn parse_n3(&mut self, n3_data: &str) {
         let lines: Vec<String> = n3_data.lines().map(|l| l.trim().to_string()).collect();
@@ -1277,11 +1299,7 @@ impl SparqlDatabase {
                 let mut statement = String::new();
 
                 for raw_line in chunk {
-                    let mut line = raw_line.as_str();
-                    if let Some(comment_start) = line.find('#') {
-                        line = &line[..comment_start];
-                        line = line.trim();
-                    }
+                    let line = Self::strip_n3_comment(raw_line.as_str());
                     if line.is_empty() {
                         continue;
                     }
